@@ -173,7 +173,9 @@ func render1(w writer, n *Node) error {
 			return err
 		}
 	}
-	if voidElements[n.Data] {
+	// Only HTML elements are void: the parser gives a foreign (SVG or
+	// MathML) element with a void element's name the children it finds.
+	if voidElements[n.Data] && (n.Namespace == "" || n.FirstChild == nil) {
 		if n.FirstChild != nil {
 			return fmt.Errorf("html: void element <%s> has child nodes", n.Data)
 		}
